@@ -41,6 +41,7 @@ type dockerIn struct {
 	End     []int       `json:"end"`
 	Step    int         `json:"step"`  // seconds
 	Range   int         `json:"range"` // seconds, for metric shapes
+	Offset  int         `json:"offset"` // seconds: the offset modifier of the metric shapes
 	Limit   int         `json:"limit"`
 	Orders  [][]int     `json:"orders"`
 	Reps    int         `json:"reps"`
@@ -62,6 +63,9 @@ func renderSelector(ms []matcherIn) string {
 func (in *dockerIn) query() string {
 	sel := renderSelector(in.Sel)
 	rng := fmt.Sprintf("[%ds]", in.Range)
+	if in.Offset != 0 {
+		rng += fmt.Sprintf(" offset %ds", in.Offset)
+	}
 	switch in.Shape {
 	case "log", "merge":
 		return sel
@@ -430,6 +434,10 @@ func genSelect(r *rand.Rand) dockerIn {
 		if in.Shape == "count" {
 			in.Range = 100
 		}
+	}
+	if in.Shape != "log" && in.Shape != "merge" && r.Intn(3) == 0 {
+		// the offset modifier moves the window the daemon must be asked for
+		in.Offset = []int{5, 40, 100, 3600}[r.Intn(4)]
 	}
 	return in
 }
